@@ -28,6 +28,44 @@ pub fn class_of(type_name: &str) -> String {
     else { format!("other:{}", t.replace(' ', "")) }
 }
 
+fn settled(ack: &Arc<tinylfu_cached::cache::command::acknowledgement::CommandAcknowledgement>) {
+    // one poll by hand (the `poll` program of the table), then wait for the worker
+    let waker = crate::noop_waker();
+    let mut context = std::task::Context::from_waker(&waker);
+    let mut handle = ack.handle();
+    let _ = std::future::Future::poll(std::pin::Pin::new(&mut handle), &mut context);
+    let deadline = Instant::now() + Duration::from_secs(5);
+    while !ack.verif_peek().0 && Instant::now() < deadline { std::thread::sleep(Duration::from_micros(100)); }
+    // and one poll of the completed acknowledgement: the status is read under the waker lock
+    let _ = std::future::Future::poll(std::pin::Pin::new(&mut handle), &mut context);
+}
+
+/// Runs every program of `CachedModel/Locks.lean` once, deterministically, on a fresh cache (keys 100..): an applied
+/// `UpdateWeight`, a `get_ref`, a put that has to evict (sampling and the eviction's delete hook), a sweep that evicts an
+/// expired key, a hand-polled acknowledgement. The lock log must then show every nested acquisition of the table.
+fn cover_every_program(cache: &Arc<CacheD<u64, u64>>, clock: &ManualClock, shards: usize, max: i64) {
+    if let Ok(ack) = cache.put_with_weight(100, 1, 1) { settled(&ack); }
+    if let Ok(ack) = cache.put_or_update(PutOrUpdateRequestBuilder::new(100).weight(2).build()) { settled(&ack); }
+    let _ = cache.get_ref(&100).map(|reference| reference.value().value());
+    let _ = cache.get(&100);
+    // pressure: fill the cache, then one more key has to evict (sample over >= 2 shards, estimates, delete hook)
+    let each = (max / 4).max(1);
+    for key in 101..108u64 { if let Ok(ack) = cache.put_with_weight(key, 1, each) { settled(&ack); } }
+    // an expired key in the shard the sweeper visits: walk the clock second by second until the sweeper has taken it
+    // (observed through `total_weight_used()` only: a snapshot would iterate the maps and add lock edges of its own)
+    let before = cache.total_weight_used();
+    if let Ok(ack) = cache.put_with_weight_and_ttl(110, 1, 1, Duration::from_millis(10)) { settled(&ack); }
+    if cache.total_weight_used() <= before { return; }
+    for _ in 0..(4 * shards + 4) {
+        clock.0.fetch_add(1_000_000_000, Ordering::SeqCst);
+        let deadline = Instant::now() + Duration::from_millis(40);
+        while Instant::now() < deadline {
+            if cache.total_weight_used() <= before { return; }
+            std::thread::sleep(Duration::from_millis(1));
+        }
+    }
+}
+
 pub fn run(seed: u64, out: &str, millis: u64) -> bool {
     let mut sink = Sink::new(out);
     let mut ok = true;
@@ -43,6 +81,7 @@ pub fn run(seed: u64, out: &str, millis: u64) -> bool {
             .access_pool_size(*pool).access_buffer_size(*buf).command_buffer_size(*cmdcap).shards(*shards)
             .ttl_tick_duration(Duration::from_millis(1)).build();
         let cache = Arc::new(CacheD::<u64, u64>::new(config));
+        cover_every_program(&cache, &clock, *shards, *max);
         let stop = Arc::new(AtomicBool::new(false));
         let progress: Vec<Arc<AtomicU64>> = (0..4).map(|_| Arc::new(AtomicU64::new(0))).collect();
         let mut threads = Vec::new();
@@ -106,6 +145,12 @@ pub fn run(seed: u64, out: &str, millis: u64) -> bool {
             writeln!(sink.input, "L edge {} {} {}", held, wanted, same as u8).unwrap();
             writeln!(sink.implementation, "R ok").unwrap();
         }
+        // the other direction: every nested acquisition of the Lean table must have been observed
+        // (`cover_every_program` ran every program of the table on this cache before the free-running phase)
+        let mut nested: Vec<String> = lock_api::verif_log::edges().into_iter().filter(|(_, _, same)| !*same).map(|(a, b, _)| format!("{}>{}", class_of(&a), class_of(&b))).collect();
+        nested.sort(); nested.dedup();
+        writeln!(sink.input, "L cover {}", if nested.is_empty() { "-".to_string() } else { nested.join(",") }).unwrap();
+        writeln!(sink.implementation, "R ok").unwrap();
         let mut held_at: Vec<(String, String)> = verif::held_at_points().into_iter().map(|(point, held)| {
             let mut classes: Vec<String> = held.split(';').filter(|h| !h.is_empty()).map(class_of).collect();
             classes.sort();
